@@ -24,6 +24,7 @@ def run(rep):
     res2 = dtchecks.run_dt2(rep, rep.tier, ["EmitOpts", "ForwardLayoutOK", "Dims5OK", "Dims6OK", "PrefixOK", "FwdPyramidOK"], {"fwd"},
                             HWCodes=dtchecks.models.code(dtchecks.models.sq(2, 12)))
     dtchecks.options_replay(rep, fnd, res2.records, "C12", rep.tier)
+    dtchecks.big_layouts(rep, fnd, res2.records, "C12", rep.tier)       # every layout on batches beyond every size threshold
     dtchecks.masks_and_prefixes(rep, fnd, "C12", rep.tier)
     dtchecks.reuse_checks(rep, fnd, "C12", rep.tier)
     # the mask machine: every (size, J, skip set, include set) jointly, enumerated by TLC
